@@ -319,6 +319,11 @@ Definition on_rc_handle (ts : tst) (o : op) : bool :=
   | _ => false
   end.
 
+(* a time the model says was set (Chtimes, a directory header's ModTime) must be observed: [out_match]
+   alone lets an unset observed time pass (never-set times are not observed) *)
+Definition time_kept (m o : out) : bool :=
+  match m, o with OInfo _ _ _ _ _ (Some _), OInfo _ _ _ _ _ None => false | _, _ => true end.
+
 Fixpoint check_tsteps (ts : tst) (ops : list top) (obs : list out) : list string :=
   match ops, obs with
   | [], [] => []
@@ -369,7 +374,7 @@ Fixpoint check_tsteps (ts : tst) (ops : list top) (obs : list out) : list string
                    then [String.append "viol:" (viol_tag TarFS s (MkdirAll p perm) sr (inst_ok r))]
                    else [String.append "viol:" (viol_tag TarFS s1' (Chtimes p t) sr2 (inst_ok r))]
         end in
-      if out_match mr r then vt ++ check_tsteps ts1 ops' obs'
+      if out_match mr r && time_kept mr r then vt ++ check_tsteps ts1 ops' obs'
       else vt ++ [String.append "mismatch:tarentry-" (top_name o)]
   | _, _ => ["mismatch:observation-count"]
   end.
